@@ -287,6 +287,14 @@ def _selects_utpm_namespace(model, fi, call):
         if isinstance(n, ast.For) and isinstance(n.target, ast.Name) and isinstance(n.iter, (ast.Tuple, ast.List)) \
                 and all(isinstance(e, ast.Name) for e in n.iter.elts):
             loops[n.target.id] = [e.id for e in n.iter.elts]
+        # a table of (class, namespace) rows: `for kind, namespace in ((UTPM, UTPM), (Function, Function), (numpy.ndarray, utils))`
+        if isinstance(n, ast.For) and isinstance(n.target, ast.Tuple) and all(isinstance(t, ast.Name) for t in n.target.elts) \
+                and isinstance(n.iter, (ast.Tuple, ast.List)) and n.iter.elts \
+                and all(isinstance(row, (ast.Tuple, ast.List)) and len(row.elts) == len(n.target.elts) for row in n.iter.elts):
+            for j, t in enumerate(n.target.elts):
+                col = [row.elts[j] for row in n.iter.elts]
+                if all(isinstance(e, (ast.Name, ast.Attribute)) for e in col):
+                    loops[t.id] = [e.id if isinstance(e, ast.Name) else (dotted_name(e) or '?') for e in col]
     names = set()
     for x in rets:
         names |= set(loops.get(x.value.id, [x.value.id]))
@@ -344,6 +352,6 @@ def class_dispatch_targets(fi, model=None):
                 out.setdefault(f.attr, []).append(c)
         elif isinstance(f, ast.Call) and isinstance(f.func, ast.Name) and f.func.id == 'getattr' and len(f.args) >= 2 \
                 and isinstance(f.args[1], ast.Constant) and isinstance(f.args[1].value, str) \
-                and (cls_of_param(f.args[0]) is not None or (isinstance(f.args[0], ast.Name) and f.args[0].id in ('UTPM',) | params)):
+                and (cls_of_param(f.args[0]) is not None or (isinstance(f.args[0], ast.Name) and f.args[0].id in ({'UTPM'} | params))):
             out.setdefault(f.args[1].value, []).append(c)
     return out
